@@ -121,6 +121,19 @@ def l2(run, mod, fns):
     run.ob("L2", isinstance(last, ast.Return) and isinstance(last.value, ast.Constant) and last.value.value == 0,
            "convert: the normal end returns 0", f"convert ends with `{norm(last)}`", module=mod, node=last, func="convert",
            construct="convert final return")
+    raises = [r for r in walk_no_nested(conv) if isinstance(r, ast.Raise)]
+    for r in raises:
+        guard = r._parent
+        conj = set()
+        nested = False
+        if isinstance(guard, ast.If):
+            conj = {norm(v) for v in (guard.test.values if isinstance(guard.test, ast.BoolOp) and isinstance(guard.test.op, ast.And) else [guard.test])}
+            nested = guard._parent is not conv
+        want = {canon("tpm_type is not CommandResponseStream"), canon("args.format_in == 'auto'")}
+        run.ob("L2", conj == want and not nested, "convert refuses --in=auto only for a type other than the stream type",
+               f"the refusal is guarded by {sorted(conj)}{' inside another branch' if nested else ''}: `--type=CommandResponseStream --in=auto` "
+               "(the defaults spelled out) is refused although the library decodes it", module=mod, node=r, func="convert",
+               construct="convert auto/custom-type refusal guard")
     fz = fns["fuzzy_match"]
     pr = [c for c in walk_no_nested(fz) if isinstance(c, ast.Call) and call_name(c) == "print"]
     ok = len(pr) == 1 and kwarg(pr[0], "file") is not None and norm(kwarg(pr[0], "file")) == "sys.stderr" and "closest_match" in norm(fz) \
